@@ -131,8 +131,8 @@ CLAIMED = {
              "separately for all 65536 codes) and a symbolic device text - absent, or any string over {y ; \"} up to the bound, in the "
              "malloc configuration and wrapped at every offset of the static heap. The output is checked on the fly by a 488.2 string "
              "reader in the write callback: <code>,\"...\" with every inner quote doubled, un-escaped content a prefix of "
-             "description[;text], at most LIMIT characters, cut as late as LIMIT allows. LIMIT is the real 255 in the thorough tier and "
-             "scaled (same code, macro overridden) in the quick tier.",
+             "description[;text], at most LIMIT characters, cut as late as LIMIT allows. LIMIT is checked scaled to 6/8/12 (quick) and up to 20 "
+             "(thorough) by overriding the macro at compile time (same code); the real 255 needs more than 12 GB and is not claimed.",
         tech="CBMC bounded model checking of real SCPI_ResultError with streaming 488.2-string oracle in the write callback",
         ref="3 C18"),
     "C20": dict(
